@@ -292,9 +292,26 @@ fn env_vars_read_by_bourse() -> &'static Vec<String> {
 }
 
 fn run_in_child(c: &SimCase, progress: bool, variant: u32) -> Result<Digest, String> {
+    let want_pin = variant % 2 == 1 && std::path::Path::new("/usr/bin/taskset").exists();
+    match run_in_child_with(c, progress, variant, want_pin) {
+        // (cpu 0 may not be available to this process: then the child runs unconfined)
+        Err(_) if want_pin => run_in_child_with(c, progress, variant, false),
+        r => r,
+    }
+}
+
+fn run_in_child_with(c: &SimCase, progress: bool, variant: u32, pin: bool) -> Result<Digest, String> {
     let exe = std::env::current_exe().map_err(|e| e.to_string())?;
     let cwd = if variant % 2 == 0 { std::path::PathBuf::from("/") } else { crate::engine::scratch_dir() };
-    let mut cmd = std::process::Command::new(exe);
+    // the odd variants are confined to ONE cpu (taskset, where it exists): a run must not depend on how many cpus the
+    // process may use either
+    let mut cmd = if pin {
+        let mut c = std::process::Command::new("/usr/bin/taskset");
+        c.arg("-c").arg("0").arg(exe);
+        c
+    } else {
+        std::process::Command::new(exe)
+    };
     cmd.arg("c09-child").arg(if progress { "1" } else { "0" }).current_dir(cwd).stdin(std::process::Stdio::piped()).stdout(std::process::Stdio::piped()).stderr(std::process::Stdio::null());
     // a different environment block per variant
     cmd.env_clear();
